@@ -21,8 +21,12 @@ def shim():
     return so
 
 
+POSFAM = []
+
+
 def corpus(tier):
     out = []
+    del POSFAM[:]
     # several Into targets in every declaration order, on every shape, with field-level markers
     tys = ['u8', 'u16', 'u32', 'W', "&'static str", 'Vec<u8>']
     shapes = [K.XShape('struct', [('n', 1)]), K.XShape('struct', [('t', 2)]), K.XShape('enum', [('t', 1), ('n', 2)])]
@@ -156,8 +160,10 @@ def corpus(tier):
             for pos in sorted({0, 3, 4, width - 2, width - 1, None}, key=lambda x: -1 if x is None else x):
                 fs = ', '.join(('#[educe(%s)] u8' % ign) if k == pos else 'u8' for k in range(width))
                 out.append('#[derive(Educe)] #[educe(%s)] enum Ty { V(%s), W }' % (tl, fs))
+                POSFAM.append(out[-1])
                 if width in (5, 7):
                     out.append('#[derive(Educe)] #[educe(%s)] struct Ty(%s);' % (tl, fs))
+                    POSFAM.append(out[-1])
     seen, uniq = set(), []
     for t in out:
         if t not in seen:
@@ -279,9 +285,29 @@ def check(v, tier):
                 fp = fingerprint(r)
                 if fp != ref_h[i] and i not in bad:
                     bad[i] = (seed, pos, fp)
+    # two-step histories in a fresh process each: an item with one position ignored, then an item of the same kind and trait set with nothing ignored (of every width):
+    # what the first expansion leaves behind is the *only* thing the second one can have seen (in the long histories a complete item usually comes first)
+    idx = {t: i for i, t in enumerate(inputs)}
+    fam = [t for t in POSFAM if t in idx]
+    head = lambda t: t[:t.index(' Ty')]
+    pairs = [(idx[a_], idx[b_]) for a_ in fam if a_.count('#[educe(') == 2 for b_ in fam if b_.count('#[educe(') == 1 and head(a_) == head(b_)]
+
+    def run_pair(pr):
+        env = dict(core.ENV)
+        env['LD_PRELOAD'] = so
+        env['VERIF_HASH_SEED'] = '0'
+        return pr, xp.run_chunk(binary, [('0', 'x', inputs[pr[0]]), ('1', 'x', inputs[pr[1]])], env=env, args=('--hash-raw',))
+    with cf.ThreadPoolExecutor(max_workers=core.JOBS) as ex:
+        for pr, res in ex.map(run_pair, pairs):
+            for k in (0, 1):
+                v.cov['evaluations'] += 1
+                fp = fingerprint(res[k])
+                if fp != ref_h[pr[k]] and pr[k] not in bad:
+                    bad[pr[k]] = ('pair history after input #%d' % pr[0], k, fp)
+    v.notes['two_step_histories_in_fresh_processes'] = len(pairs)
     v.cov['states'] = n
-    v.cov['transitions'] = len(seq) * len(seeds)
-    v.cov['traces_validated_against_impl'] = len(seq) * len(seeds)
+    v.cov['transitions'] = len(seq) * len(seeds) + 2 * len(pairs)
+    v.cov['traces_validated_against_impl'] = len(seq) * len(seeds) + 2 * len(pairs)
     v.cov['distinct_nontrivial'] = nonvac
     v.notes['canary_orders_observed'] = {canary_keys[0]: '%d of 6' % len(orders[0]), canary_keys[1]: '%d of 24' % len(orders[1])}
     v.notes['seeds'] = len(seeds)
@@ -295,9 +321,9 @@ def check(v, tier):
     for t in inputs[::max(1, n // 5)][:5]:
         v.sample({'input': t})
     return v.finish('corpus: every declaration order of 2..4 Into targets on three shapes with field-level markers, refused multi-target requests, every trait-group '
-                    'configuration and merged groups of 2/3/5/all groups on the catalogue shapes, inputs naming template identifiers, items with nine to twelve traits, enums differing only in their explicit discriminants; schedule: hash seed s in 0..S (LD_PRELOAD '
+                    'configuration and merged groups of 2/3/5/all groups on the catalogue shapes, inputs naming template identifiers, items with nine to twelve traits, enums differing only in their explicit discriminants, wide tuple variants / tuple structs (5, 6, 7, 11 fields) with one position ignored or method-handled next to the complete item; schedule: hash seed s in 0..S (LD_PRELOAD '
                     'getrandom shim, verified per run: same seed => same canary order; S grown until canary maps showed 6/6 and 24/24 (quick >= 22/24) iteration orders), one '
-                    'fresh process per seed, history = the whole corpus forwards then backwards (seeds = 0 mod 4), backwards then forwards (1 mod 4), or the same starting one / two thirds into the corpus (2, 3 mod 4), then every third input twice in a row; oracle: the reference of every input is its expansion alone in a fresh process; status, canonical token '
+                    'fresh process per seed, history = the whole corpus forwards then backwards (seeds = 0 mod 4), backwards then forwards (1 mod 4), or the same starting one / two thirds into the corpus (2, 3 mod 4), then every third input twice in a row; plus two-step histories, one fresh process each (an item with one position ignored, then a complete item of the same kind and trait set, every width); oracle: the reference of every input is its expansion alone in a fresh process; status, canonical token '
                     'string (item order included) and message identical to that reference at every position of every history; non-trivial = input expanding to >= 2 items',
                     {'bounds': {'seeds': len(seeds), 'tier': tier}})
 
